@@ -24,10 +24,11 @@ TRUSTED = [
 ASSUMPTIONS = [
     'computechi2: amatrix is two-dimensional (N, M) as documented, full column rank on the points with non-zero sqivar, '
     'cond(A^T W A) < 1e5; float64 inputs',
-    'pcomp: more observations than variables, no constant column, matrix of rank nv (cond < 1e6)',
+    'pcomp: more observations than variables, no constant column; full-rank cases have cond < 1e6, and one case in five has '
+    'an exactly singular covariance matrix (one variable = sum of two others)',
     'HMF steps: every row/column sub-problem is non-singular (cond < 1e5); M >= 2 pixels; positive a, g and '
     'non-negative data for the multiplicative (non-negative) updates so that no denominator vanishes',
-    'HMF.solve: data without all-zero columns, N >= 5 K spectra so that scipy kmeans returns K centroids',
+    'HMF.solve: data without all-zero columns, N >= 6 K spectra so that scipy kmeans returns K centroids',
     'pca_solve: every object has more good pixels than kept components; maxiter = 0 (no rejection pass); the returned '
     'eigenspectra are float32, so the projection identity is checked at 1e-5 relative',
     'badness monotonicity in floating point is required up to 1e-9 relative slack',
@@ -68,7 +69,7 @@ def cond(a):
 def gen_chi2(ctx):
     rng = ctx.rng
     calls = []
-    while len(calls) < ctx.n(30, 300):
+    while len(calls) < ctx.n(30, 800):
         n = rng.randint(4, 9)
         m = rng.randint(1, 3)
         A = dmat(rng, n, m, -2, 2, 3)
@@ -98,11 +99,16 @@ def gen_pcomp(ctx):
     calls = []
     combos = [(False, False), (False, True), (True, False), (True, True)]
     k = 0
-    while len(calls) < ctx.n(20, 200):
+    while len(calls) < ctx.n(20, 500):
         st, cv = combos[k % 4]
         no = rng.randint(6, 9)
         nv = rng.randint(2, 4)
         x = dmat(rng, no, nv, -4, 4, 3)
+        rankdef = nv >= 3 and (len(calls) % 5 == 4)
+        if rankdef:
+            # one variable is an exact linear combination of two others: singular covariance / correlation matrix
+            for row in x:
+                row[nv - 1] = row[0] + row[1]
         c1 = frac_cov(x, 1)
         c0 = frac_cov(x, 0)
         if any(c1[j][j] == 0 for j in range(nv)):
@@ -115,10 +121,10 @@ def gen_pcomp(ctx):
             cs = [[float(v) for v in r] for r in c1]
         sdc = [math.sqrt(cs[j][j]) for j in range(nv)]
         Cm = cs if cv else [[cs[i][j] / (sdc[i] * sdc[j]) for j in range(nv)] for i in range(nv)]
-        if cond(Cm) > 1e6:
+        if not rankdef and cond(Cm) > 1e6:
             continue
         k += 1
-        calls.append(('pcomp-%s-%s' % ('std' if st else 'raw', 'cov' if cv else 'corr'),
+        calls.append(('pcomp-%s-%s%s' % ('std' if st else 'raw', 'cov' if cv else 'corr', '-rankdef' if rankdef else ''),
                       {'f': 'pcomp', 'x': x, 'standardize': st, 'covariance': cv, '_sd0': sd0 if st else [], '_sdc': [] if cv else sdc}))
     return calls
 
@@ -127,7 +133,7 @@ def gen_hmf_step(ctx):
     rng = ctx.rng
     calls = []
     epss = [None, None, 0.5, 0.25, 0.0]
-    while len(calls) < ctx.n(16, 150):
+    while len(calls) < ctx.n(16, 400):
         N = rng.randint(3, 5)
         M = rng.randint(3, 6)
         K = rng.choice([1, 2, 2, 2, 3]) if N >= 4 and M >= 4 else rng.choice([1, 2])
@@ -174,7 +180,7 @@ def lowrank(rng, n, m, rank, positive=True, noise=0.02):
 def gen_hmf_solve(ctx):
     rng = ctx.rng
     calls = []
-    plan = [(False, None), (True, None), (False, 0.5), (False, None)] * ctx.n(1, 6)
+    plan = [(False, None), (True, None), (False, 0.5), (False, None)] * ctx.n(1, 10)
     for nonneg, eps in plan:
         K = 2
         N = rng.randint(12, 16)
@@ -192,7 +198,7 @@ def gen_hmf_solve(ctx):
 def gen_pca(ctx):
     rng = ctx.rng
     calls = []
-    while len(calls) < ctx.n(8, 60):
+    while len(calls) < ctx.n(8, 150):
         nobj = rng.randint(4, 6)
         npix = rng.randint(8, 11)
         nkeep = rng.randint(1, 2)
@@ -307,7 +313,7 @@ def correspond(ctx, proof_ok=True):
     nd = 0
     for ci, ((tag, c), r) in enumerate(zip(calls, results)):
         if 'ok' not in r:
-            direct.append(('C15:%s:impl=%s' % (tag, r.get('err')), '%s raised/produced %s on an input inside the property domain (%s)' % (
+            direct.append(('C15:%s:impl=%s' % (('pcomp-rankdef' if tag.endswith('-rankdef') else tag), r.get('err')), '%s raised/produced %s on an input inside the property domain (%s)' % (
                 tag, r.get('err'), r.get('msg', '')), {'kind': 'failing-input', 'call': public(c), 'impl_result': r}))
             continue
         if c['f'] == 'hmf_solve':
